@@ -124,3 +124,14 @@ def register_all(prop):
                "tcpmux_connect, client_plugins (http_proxy, socks5, static_file through plugin.Create().Handle over pipes) and web_apis (frps dashboard "
                "and frpc admin API, every registered route x methods) use the same credential grammar. non-trivial = a protected route/service is addressed."),
          assumptions=["/healthz of the web servers is an unauthenticated liveness endpoint by design and is not claimed", "pprof endpoints are not enabled"])
+    prop("C18", qshards=8, tshards=16, qlimit=480, tlimit=3000,
+         rule=("formats: a logical client (common section + 0..4 proxies of the 8 types + 0..2 visitors, every documented field incl. plugins, health checks, "
+               "header maps, unicode / dotted names) or server configuration is generated as a generic tree, rendered to JSON, YAML (sigs.k8s.io/yaml) and "
+               "TOML (go-toml/v2) by independent encoders and loaded with config.LoadConfigure in both strict modes; the three loads must be identical and equal "
+               "the document; an unknown key injected at a random nesting depth must be refused by strict mode in all three formats and ignored otherwise. "
+               "msg_roundtrip: one proxy definition -> Complete -> MarshalToMsg -> wire codec -> NewProxyConfigurerFromMsg; every field the server acts on must be "
+               "equal. flags: every flag of the server, client-common, proxy and visitor flag sets given explicitly vs. the file that sets the same fields. "
+               "validation: accepted configurations respect port ranges and the custom-domain / subdomain-host rule in any letter case. literals: port-range "
+               "and bandwidth literals round-trip; templates render to the independently computed expansion. non-trivial = >= 3 (formats) / >= 5 (msg) set "
+               "fields, an unknown key at depth >= 2, or >= 5 flags."),
+         assumptions=["free-form maps (metadatas, annotations, header sets) accept any key, so no unknown-key case exists inside them"])
